@@ -452,6 +452,35 @@ theorem C16_metrics_old_counterexample :
     ∃ s, ({} : Metrics).run false [.goroutine, .shutdown, .complete, .goroutine] = some s ∧ s.stopDone = true ∧ s.bound = true := by
   exact ⟨_, rfl, rfl, rfl⟩
 
+/-- **D37**: with the deadline, `Shutdown` returns whatever the clients do — from every state, within two steps -/
+theorem C16_metrics_shutdown_returns (c : MConns) (h : c.shutdownReturned = false) :
+    ∃ evs c', evs.length ≤ 2 ∧ c.run true evs = some c' ∧ c'.shutdownReturned = true := by
+  refine ⟨[.deadline, .returns], { c with active := 0, stalled := 0, shutdownReturned := true }, by simp, ?_, rfl⟩
+  simp [MConns.run, MConns.step, h]
+
+/-- … and without it (the server as it was) one stalled connection is enough: no sequence of events makes
+`Shutdown` return (what `life.metrics_stalled` observed as `stop_terminated=0`) -/
+theorem C16_metrics_unbounded_shutdown_hangs (evs : List CEv) (c c' : MConns)
+    (hst : 0 < c.stalled ∧ c.stalled ≤ c.active) (hr : c.shutdownReturned = false)
+    (h : c.run false evs = some c') : c'.shutdownReturned = false := by
+  induction evs generalizing c with
+  | nil => simp only [MConns.run, Option.some.injEq] at h; subst h; exact hr
+  | cons e rest ih =>
+    simp only [MConns.run] at h
+    split at h
+    · rename_i c1 hc1
+      cases e <;> simp only [MConns.step] at hc1
+      · split at hc1
+        · rename_i hlt
+          cases hc1
+          exact ih { c with active := c.active - 1 } ⟨hst.1, by show c.stalled ≤ c.active - 1; omega⟩ hr h
+        · cases hc1
+      · simp at hc1
+      · split at hc1
+        · rename_i ha; simp only [Bool.and_eq_true, decide_eq_true_eq] at ha; omega
+        · cases hc1
+    · cases h
+
 /-! ## the JWT hook's refresh loop (D18) -/
 
 /-- invariant of the repaired loop: once Stop has completed the goroutine has returned and the key set is the one
